@@ -403,6 +403,10 @@ func runC18(r *Run, replay *Case) {
 		c18MarkdownLayers(r)
 		return
 	}
+	if replay != nil && replay.Input["stream"] == "real-layers" {
+		c18RealLayers(r)
+		return
+	}
 	if replay != nil {
 		var layers []c18Layer
 		remarshal(replay.Input["desc"], &layers)
@@ -413,6 +417,7 @@ func runC18(r *Run, replay *Case) {
 	r.Res.Rule = "layer stacks enumerated over a 5-path universe (each path absent/file/dir per layer, nil layers included) x open/readdir/glob queries; " +
 		"non-trivial = the queried path/pattern is present in at least one layer; distinct by (query, serving layer or merged listing)"
 	c18MarkdownLayers(r)
+	c18RealLayers(r)
 	cfgs := c18LayerConfigs(r.Thorough())
 	qs := c18Queries()
 	// corpus: the empty-directory case first
